@@ -20,7 +20,8 @@ from .version import Version, LATEST_VER
 # Trailing newline sanitation
 TRAILING_NL_RE = re.compile(r'\n+$')
 
-GRID_SEP = re.compile(r'(?<=\n)\n+')
+# Grids are separated by one or more empty lines (LF or CRLF line ends)
+GRID_SEP = re.compile(r'(?<=\n)(?:\r?\n)+')
 
 MODE_ZINC = 'text/zinc'
 MODE_JSON = 'application/json'
